@@ -2,7 +2,7 @@
    Statements only; proofs in Proofs/JoinQueryProofs.v (and Proofs/JoinsProofs.v for the schedule-independence).
    Model: Model/JoinQuery.v (relational reference rel_join, ON/WHERE conjuncts, LookupJoin) over the node models
    of Model/Joins.v.  A table read as a batch is [batch t]: insert-only records without event time, then close. *)
-From Octo Require Import Joins JoinQuery JoinsBase JoinsProofs JoinQueryProofs ChangelogLemmas.
+From Octo Require Import Joins JoinQuery JoinsBase JoinsProofs JoinQueryProofs GenJoinProofs OuterJoinProofs OuterJoinProofs2 ChangelogLemmas.
 
 (* INNER JOIN (parser.go: StreamJoin + Filter(ON); optimizer: equalities moved into the join key, the rest stays
    in the filter).  For every pair of tables, every key extraction kl/kr (none = the unoptimized plan, where
@@ -84,14 +84,23 @@ Theorem C02_outer_refuted :
 Proof. exact outer_pinned_pairs_null_keys. Qed.
 Print Assumptions C02_outer_refuted.
 
-(* LEFT / RIGHT / FULL OUTER JOIN.  Full statement (NOT proved in this round):
-     C02_outer : forall kind kl kr nl nr L R sigma st os, (arities nl / nr, key_respects ...) ->
-       interleave (batch L) (batch R) sigma -> oj_run_steps kl kr ol or nl nr jinit sigma = (st, os) -> phase st = Done ->
-       forall x, consolidate (records (concat os)) x = count_rows (rel_join kind (key_pred kl kr nl) nl nr L R) x
-   i.e. matched pairs plus every unmatched row of the outer side(s) exactly once, NULL-padded.
-   Proved below: the instance on the NULL-key witness (what the `fix:` changed); the general case is checked by the
-   engines c19 (node level, exact emissions under replayed schedules, oracle outer_list) and c02 (CLI, oracle
-   rel_join) on generated tables. *)
+(* LEFT (kind 1) / RIGHT (kind 2) / FULL (kind 3) OUTER JOIN (kind 0: no outer side).  logical/join.go takes all ON
+   equalities as keys.  On two batches, under EVERY interleaving (either input finishing first), the output is the
+   matched pairs plus every row of an outer side that has no partner exactly once, NULL-padded — [rel_join]. *)
+Theorem C02_outer : forall kl kr nl nr kind, key_respects kl -> key_respects kr ->
+  forall L R sigma st os,
+  interleave (batch L) (batch R) sigma ->
+  (forall l, In l L -> length l = nl) -> (forall r, In r R -> length r = nr) ->
+  oj_run_steps kl kr ((kind =? 1) || (kind =? 3)) ((kind =? 2) || (kind =? 3)) nl nr jinit sigma = (st, os) ->
+  phase st = Done ->
+  forall x, consolidate (records (concat os)) x = count_rows (rel_join kind (key_pred kl kr nl) nl nr L R) x.
+Proof.
+  intros kl kr nl nr kind Hkl Hkr L R sigma st os.
+  exact (outer_join_batch kl kr nl nr kind Hkl Hkr L R sigma st os).
+Qed.
+Print Assumptions C02_outer.
+
+(* the instance on the NULL-key witness (kept from the first round; subsumed by C02_outer) *)
 Theorem C02_outer_partial :
   let '(st, out) := oj_run k1 k1 true true 2 2 jinit wnull_sigma in
   phase st = Done /\ bag_eqb (records out) (map ins (rel_join 3 (all_hold [CEq 0 2]) 2 2 wq_left wq_right)) = true.
